@@ -19,7 +19,7 @@ EXPLANATION = (
     "only where the order facts give day_submerged <= LagAer (strict guard before the integer increment), so it is >= 0. C04.e: the net-irrigation refill raises (or lowers) each compartment towards the threshold of its own layer - "
     "the per-layer threshold is recomputed from the compartment's own wilting point / field capacity at every layer change and the "
     "root-zone-average threshold computed before the loop cannot reach the refill (reaching definitions + the layer-change idiom) - "
-    "the structural half of the non-negativity of the net requirement. C04.f: every definition of the curve number reaching the retention formula S = 25400/cn - 254 is a clamp to at most 100, so S >= 0 and 0 <= runoff <= rain. C04.g (structural half of Es <= EsPot): soil_evaporation's demand ledger - remaining demand + actual evaporation is invariant from its definition to the return (linear template), and every stage potential is defined as min(remaining demand, .) or as a per-sub-step fraction of it. NOT decided: the numeric inequality Es <= EsPot itself (sum of the sub-step fractions, reduction coefficient <= 1), Tr <= TrPot, non-negativity of DeepPerc / CR / GwIn / Runoff / Es "
+    "the structural half of the non-negativity of the net requirement. C04.f: every definition of the curve number reaching the retention formula S = 25400/cn - 254 is a clamp to at most 100, so S >= 0 and 0 <= runoff <= rain. C04.g (structural half of Es <= EsPot): soil_evaporation's demand ledger - remaining demand + actual evaporation is invariant from its definition to the return (linear template), and every stage potential is defined as min(remaining demand, .) or as a per-sub-step fraction of it. C04.h (structural half of Tr <= TrPot): the root-extraction loop's ledger - remaining demand + actual transpiration invariant through the loop (induction), and the per-compartment sink taken off the ledger has passed the cap against the remaining demand expressed as a water content of the same compartment (later definitions only lower it). NOT decided: the numeric inequalities themselves, non-negativity of DeepPerc / CR / GwIn / Runoff / Es "
     "(numeric, depend on run-time water contents).")
 
 
@@ -133,6 +133,7 @@ def run(chk, prog, tier):
     own_thresholds(chk, prog, rule="C04.e", only={"transpiration"}, floor=1)
     rule_f(chk, prog)
     rule_g(chk, prog)
+    rule_h(chk, prog)
     chk.assume("A-1")
     chk.exhaustive = True
 
@@ -290,6 +291,134 @@ def rule_g(chk, prog):
                 chk.ok("C04.g", where, construct, why)
             else:
                 chk.violation("C04.g", where, construct, f"a stage of the evaporation may extract more than what is left of the potential: {why}", loc=se.loc(a))
+
+
+def rule_h(chk, prog):
+    """C04.h (structural half of Tr <= TrPot): the root-extraction loop of transpiration keeps a demand ledger R (`ToExtract`), started at
+    the stress-adjusted potential with the actual transpiration at 0.
+      (1) R + TrAct is invariant through the loop (linear template, induction over the loop);
+      (2) the per-compartment sink that is taken off the ledger has passed the cap `demand as water content < sink -> sink = demand`,
+          where the demand as water content is R / (1000 * dz[comp]) of the same compartment; later definitions only lower it."""
+    from .. import affine as A
+    from ..symb import Sym
+    from ..rdef import flow_of, ENTRY
+    from ..model import walk_no_nested, AnalysisError
+    tr = prog.find_func("transpiration")
+    chk.fn(tr.key)
+    where = f"{tr.module}:{tr.qualname}"
+    flow = flow_of(tr)
+    cfg = flow.cfg
+    # ledger: the while loop `while (R > 0) and ...` whose body has R = R - x and T = T + x
+    loops = [w for w in walk_no_nested(tr.node) if isinstance(w, ast.While)]
+    found = None
+    for w in loops:
+        names = [c.left.id for c in ast.walk(w.test) if isinstance(c, ast.Compare) and isinstance(c.left, ast.Name) and isinstance(c.ops[0], ast.Gt)
+                 and isinstance(c.comparators[0], ast.Constant) and c.comparators[0].value == 0]
+        for R in names:
+            dec = [a for b in w.body for a in ast.walk(b) if isinstance(a, ast.Assign) and isinstance(a.targets[0], ast.Name) and a.targets[0].id == R
+                   and isinstance(a.value, ast.BinOp) and isinstance(a.value.op, ast.Sub) and norm(a.value.left) == R]
+            for d in dec:
+                x = norm(d.value.right)
+                inc = [a for b in w.body for a in ast.walk(b) if isinstance(a, ast.Assign) and isinstance(a.targets[0], ast.Name)
+                       and isinstance(a.value, ast.BinOp) and isinstance(a.value.op, ast.Add) and norm(a.value.left) == a.targets[0].id and norm(a.value.right) == x]
+                if inc:
+                    found = (w, R, inc[0].targets[0].id, d, inc[0])
+    if found is None:
+        chk.violation("C04.h", where, "root-extraction demand ledger", "no loop in transpiration takes the extracted water off a remaining-demand variable and "
+                      "adds the same amount to the actual transpiration: the extraction is not limited by the potential", loc=tr.loc())
+        return
+    w, R, T, dec, inc = found
+    base = Sym(prog, tr)
+    head = base.cfg.node_of(w)          # loop head / first test
+    wtests = [n for n in base.cfg.live_nodes() if n.kind == "test" and n.stmt is w]
+    first = min(wtests, key=lambda n: n.id) if wtests else None
+    sym = Sym(prog, tr, templates={"L": {R: 1, T: 1}})
+    # (1) value of the template at the statements right after the loop equals its value at loop entry
+    entry_vals, exit_vals = [], []
+    for n in sym.cfg.live_nodes():
+        if n.kind == "test" and n.stmt is w and n.id in sym.state_in:
+            entry_vals.append(sym.state_in[n.id].tmpl.get("L"))
+    after = [n for n in sym.cfg.live_nodes() if n.id in sym.state_in and isinstance(n.ast, ast.stmt) and getattr(n.ast, "lineno", 0) > w.end_lineno]
+    nxt = min(after, key=lambda n: n.ast.lineno) if after else None
+    construct = f"{R} + {T} invariant through the root-extraction loop"
+    tv = sym.state_in[nxt.id].tmpl.get("L") if nxt is not None else None
+    if tv is not None and entry_vals and all(v is not None and A.equal(v, tv) for v in entry_vals):
+        chk.ok("C04.h", where, construct, "template preserved by the loop body (induction) on every path")
+    else:
+        chk.violation("C04.h", where, construct, "water taken from a compartment is not taken off the remaining demand by the same amount (or the other way round): "
+                      "the actual transpiration can exceed the potential", loc=tr.loc(dec))
+    # (2) the sink
+    x_names = [v.id for v in ast.walk(dec.value.right) if isinstance(v, ast.Name)]
+    use = flow.stmt_node[id(dec)]
+    sink = None
+    for nm in x_names:
+        ds = flow.defs_reaching(nm, use)
+        if len(ds) > 2:
+            sink = nm
+    if sink is None:
+        raise AnalysisError("transpiration: cannot identify the per-compartment sink")
+    # demand as water content: D = R / 1000 / dz[comp] (normal form check R == D * 1000 * dz)
+    caps = [n for n in cfg.live_nodes() if n.kind == "test" and isinstance(n.ast, ast.Compare) and len(n.ast.ops) == 1
+            and ((isinstance(n.ast.ops[0], ast.Lt) and norm(n.ast.comparators[0]) == sink and isinstance(n.ast.left, ast.Name))
+                 or (isinstance(n.ast.ops[0], ast.Gt) and norm(n.ast.left) == sink and isinstance(n.ast.comparators[0], ast.Name)))]
+    good_caps = set()
+    for t in caps:
+        D = n_ = (t.ast.left.id if isinstance(t.ast.ops[0], ast.Lt) else t.ast.comparators[0].id)
+        assigns = [d for d in cfg.live_nodes() if isinstance(d.ast, ast.Assign) and isinstance(d.ast.targets[0], ast.Name) and d.ast.targets[0].id == sink
+                   and norm(d.ast.value) == D and (t.id, True) in cfg.control_deps().get(d.id, set())]
+        if not assigns:
+            continue
+        # D's definition: R converted to a water content with the thickness of the compartment whose thickness also scales the ledger update
+        dd = [cfg.nodes[k].ast for k in flow.defs_reaching(D, t.id) if k != ENTRY]
+        def dz_index(e):
+            idx = {norm(x.slice) for x in ast.walk(e) if isinstance(x, ast.Subscript) and isinstance(x.value, ast.Attribute) and x.value.attr == "dz"}
+            return idx.pop() if len(idx) == 1 else None
+        if len(dd) == 1 and isinstance(dd[0], ast.Assign):
+            v = dd[0].value
+            has_R = any(isinstance(x, ast.Name) and x.id == R for x in ast.walk(v))
+            has_1000 = any(isinstance(x, ast.Constant) and x.value == 1000 for x in ast.walk(v))
+            is_div = isinstance(v, ast.BinOp) and isinstance(v.op, ast.Div)
+            if has_R and has_1000 and is_div and dz_index(v) is not None and dz_index(v) == dz_index(dec.value.right):
+                good_caps.add(t.id)
+    construct = f"{sink} limited to the remaining demand before `{norm(dec)[:60]}`"
+    if not good_caps:
+        chk.violation("C04.h", where, construct, "the per-compartment sink is never compared with the remaining demand expressed as a water content of the same "
+                      "compartment: more than the potential can be extracted", loc=tr.loc(dec))
+        return
+    n = 0
+    for d in flow.defs_reaching(sink, use):
+        da = cfg.nodes[d].ast if d != ENTRY else None
+        n += 1
+        cons = f"{norm(da)[:70] if da is not None else sink} reaches the ledger update"
+        if da is None:
+            chk.violation("C04.h", where, cons, "the sink is a parameter", loc=tr.loc())
+            continue
+        cds = cfg.control_deps().get(d, set())
+        if any((t, True) in cds for t in good_caps):
+            chk.ok("C04.h", where, cons, "the cap itself")
+        elif not cfg.paths_exist_avoiding(d, use, good_caps):
+            chk.ok("C04.h", where, cons, "passes the cap before the update")
+        else:
+            # definitions after the cap may only lower the sink: `S = a - b` under `(a - S) < b`, or `S = 0` under `S < 0`
+            lowering = False
+            v = da.value
+            for t, l in cds:
+                c = cfg.nodes[t].ast
+                if cfg.nodes[t].kind == "test" and isinstance(c, ast.Compare) and len(c.ops) == 1 and l is True and isinstance(c.ops[0], ast.Lt):
+                    if isinstance(v, ast.Constant) and v.value == 0 and norm(c.left) == sink and isinstance(c.comparators[0], ast.Constant) and c.comparators[0].value == 0:
+                        lowering = True
+                    if isinstance(v, ast.BinOp) and isinstance(v.op, ast.Sub) and isinstance(c.left, ast.BinOp) and isinstance(c.left.op, ast.Sub) \
+                            and norm(c.left.left) == norm(v.left) and norm(c.left.right) == sink and norm(c.comparators[0]) == norm(v.right):
+                        lowering = True
+            # nested `if S < 0: S = 0` sits under the air-dry test as well
+            if not lowering and isinstance(v, ast.Constant) and v.value == 0:
+                lowering = any(cfg.nodes[t].kind == "test" and l is True and norm(cfg.nodes[t].ast) == f"{sink} < 0" for t, l in cfg.transitive_control_deps(d))
+            if lowering:
+                chk.ok("C04.h", where, cons, "after the cap, only lowers the sink (air-dry limit)")
+            else:
+                chk.violation("C04.h", where, cons, "this definition reaches the ledger update without passing the comparison with the remaining demand",
+                              loc=tr.loc(da))
+    chk.floor("C04.h", n, 4, "definitions of the sink reaching the ledger update")
 
 
 def rule_d(chk, prog):
